@@ -1,13 +1,16 @@
 /-
 Driver for C08 (tuning).  Import-free apart from the model.
 
+Line:  setp <steps> <own> <settings>     (`clone(composite).set_params(**params)`, model TuneSetParams)
+  steps    : name@cls@k=v,k=v ; …   (`-` = no arguments)      own : k=v,k=v | -
+  settings : o@k@v | s@name@cls@k=v,… | n@name@sub@v  joined by `;`  (dict order)   answer: `steps=… own=…` | E:value
 Line:  run <source> <cv> <n> <gib> <refit> <ops> <table>
   source : grid:<dict>|<dict>…   dict = key=v1,v2;key=…   (`@` = empty dict, `~e` = empty value list,
            `~s` = not a sequence, `grid:none` = no dict)      |  list:<params>|<params>…  (`list:none`)
   params : key=v;key=v  (`@` = {})
   cv     : s|e : fh : wl : step : iw|none : T|F
   ops    : comma list of F (fit) p (predict) s (update_predict_single) U (update_predict) u (update) c (cutoff)
-           m (probe of the remembered series behind the guard of a tuner method)
+           m / x (probe of the remembered series / exogenous data behind the guard of a tuner method)
   table  : one entry per distinct parameter set,  params>scores>outsF>outsT>outsUnfitted , entries joined by `|`
            scores = per-fold scores of evaluate() (rationals / nan, `-` = none) or an error token E:…
            outs*  = `~`-joined result tokens, one per op position, of a forecaster constructed directly with
@@ -18,6 +21,7 @@ the table's token at i.  Everything else (candidate order, mean, rank, argmin, b
 delegation) is computed by SkVerif.Tune.
 -/
 import SkVerif.Model.Tune
+import SkVerif.Model.TuneSetParams
 import SkVerif.Drv.Parse
 namespace SkVerif.Drv.C08
 open SkVerif SkVerif.Tune SkVerif.Drv
@@ -151,7 +155,7 @@ def runOps (m : Machine (Params × Bool) Nat String Nat) (cfg : Config CvSpec) (
         (r.1, (match o with | .ok _ => "ok" | .error e => showErr e) :: r.2))
     else
       let call? : Option (Call Nat) :=
-        if k == "p" || k == "m" then some (Call.method pos)
+        if k == "p" || k == "m" || k == "x" then some (Call.method pos)
         else if k == "s" || k == "U" then some (Call.updatePredict (fun _ => pos) none)
         else if k == "u" then some (Call.update (fun _ => pos) none)
         else if k == "c" then some (Call.cutoff pos)
@@ -162,8 +166,44 @@ def runOps (m : Machine (Params × Bool) Nat String Nat) (cfg : Config CvSpec) (
         let (st', o) := stepTuner m cfg st c
         (runOps m cfg ev n st' (pos + 1) ks).map (fun r => (r.1, showTOut o :: r.2))
 
+def parseArgs? (s : String) : Option (List (String × Val)) :=
+  if s == "-" then some []
+  else (s.splitOn ",").mapM (fun kv =>
+    match kv.splitOn "=" with
+    | [k, v] => some (k, v)
+    | _ => none)
+
+def showArgs (a : List (String × Val)) : String :=
+  if a.isEmpty then "-" else ",".intercalate (a.map (fun kv => s!"{kv.1}={kv.2}"))
+
+def parseStep? (s : String) : Option (String × Comp) :=
+  match s.splitOn "@" with
+  | [n, cls, a] => (parseArgs? a).map (fun a => (n, ⟨cls, a⟩))
+  | _ => none
+
+def parseSetting? (s : String) : Option Setting :=
+  match s.splitOn "@" with
+  | ["o", k, v] => some (.own k v)
+  | ["s", n, cls, a] => (parseArgs? a).map (fun a => .step n ⟨cls, a⟩)
+  | ["n", n, sub, v] => some (.nested n sub v)
+  | _ => none
+
+def showComposite (m : Composite) : String :=
+  let st := ";".intercalate (m.steps.map (fun nc => s!"{nc.1}@{nc.2.cls}@{showArgs nc.2.args}"))
+  s!"steps={st} own={showArgs m.own}"
+
+def handleSetp (steps own settings : String) : String :=
+  match (steps.splitOn ";").mapM parseStep?, parseArgs? own,
+        (if settings == "-" then some [] else (settings.splitOn ";").mapM parseSetting?) with
+  | some st, some o, some ps =>
+    match setParams ⟨st, o⟩ ps with
+    | .ok r => showComposite r
+    | .error e => showErr e
+  | _, _, _ => "bad-op"
+
 def handle (toks : List String) : String :=
   match toks with
+  | ["setp", steps, own, settings] => handleSetp steps own settings
   | ["run", src, cv, n, gib, refit, ops, table] =>
     match parseSource? src, parseCv? cv, parseInt? n, parseBool? gib, parseBool? refit,
           (table.splitOn "|").mapM parseEntry? with
